@@ -34,6 +34,7 @@ type Person implements Named {
   strict: String!
   color: Color
   any: Any
+  sure: Any!
   scores: [Int!]!
   lim(a: Int! = 5, tags: [String]): Int
 }
@@ -110,6 +111,9 @@ def make_schema(deferred=(), asynchronous=False, sdl=EXEC_SDL):
     (-> pool task / coroutine); all other fields use the schema default resolver (synchronous)."""
     from py_gql import build_schema
     s = build_schema(sdl)
+    if "Any" in s.types:
+        # a custom scalar that serialises one particular (non-null) internal value to null: completion, not resolution, decides non-null errors
+        s.types["Any"]._serialize = RX.serialize_any
     s.default_resolver = world_resolver
     for t, f in deferred:
         s.register_resolver(t, f, world_resolver_async if asynchronous else world_resolver_task)
@@ -317,6 +321,7 @@ OPERATIONS = [
     ("{ pet { ... on Named { name } ... on Dog { barks } } named { name ... on Person { age } ... on Cat { lives } } }", {}),
     ("{ people { name friends { name friends(first: 1) { name } } } }", {}),
     ("{ people { scores strict color any } }", {}),
+    ("{ me { sure any } people { sure } }", {}),
     ("query Q($s: Boolean!, $i: Boolean = true) { me { name @skip(if: $s) age @include(if: $i) strict @include(if: $s) } count @skip(if: $i) }", {"s": True}),
     ("query Q($s: Boolean!) { me { ... on Person @include(if: $s) { name } ...F @skip(if: $s) } } fragment F on Person { age }", {"s": False}),
     ("fragment A on Person { name best { ...N } } fragment N on Named { name } { me { ...A pets { ...N } } }", {}),
@@ -365,6 +370,8 @@ def worlds_for(schema, query, variables, operation_name=None, with_boom=False, l
             one = RX._default_for(schema, inner.type, path + (0,), 0)
             out.append(("list-null-item@%s" % (path,), {path: ("value", [one, None])}))
             out.append(("empty-list@%s" % (path,), {path: ("value", [])}))
+        if getattr(inner, "name", None) == "Any":
+            out.append(("void@%s" % (path,), {path: ("value", RX.VOID)}))       # serialises to null although the resolver returned a value
         if with_boom:
             out.append(("boom@%s" % (path,), {path: ("boom", "unexpected")}))
     if limit is not None and len(out) > limit:
